@@ -31,6 +31,9 @@ type Case struct {
 	Redef  int      `json:"redef_index"` // index into Defs of a defun that is redefined after the K evaluations (-1: none)
 	NewDef string   `json:"redef_form"`
 	After  string   `json:"after_form,omitempty"` // evaluated once after the redefinition and the last evaluation of main
+	// Unbind: the function is made unbound with fmakunbound right before its redefinition (callers compiled earlier
+	// must reach the new definition all the same)
+	Unbind bool `json:"unbind,omitempty"`
 	Perms  [][]int  `json:"perms"` // the definition orders to run (all of them for <= 4 definitions)
 }
 
@@ -133,6 +136,7 @@ func genCase(rt *rapid.T) Case {
 		} else {
 			c.NewDef = r.Print(g.DefunIndexed(j, sigs))
 		}
+		c.Unbind = rapid.IntRange(0, 2).Draw(rt, "unbind") == 0
 	}
 	all := permutations(len(c.Defs))
 	if len(c.Defs) <= 3 {
@@ -317,6 +321,14 @@ func slipRun(c Case, perm []int, mode string) (out runResult) {
 		evalMain()
 	}
 	if c.Redef >= 0 && out.err == "" {
+		if c.Unbind {
+			if f := strings.Fields(c.NewDef); len(f) > 1 && f[0] == "(defun" {
+				if o := evalTop(rn("(fmakunbound '" + f[1] + ")")); o.Kind != ev.Value {
+					out.err = "fmakunbound before the redefinition: " + o.String()
+					return
+				}
+			}
+		}
 		if o := evalTop(rn(c.NewDef)); o.Kind != ev.Value {
 			out.err = "redefinition: " + o.String()
 			return
